@@ -112,6 +112,21 @@ def mk_assume(mode, nloop_hint=None):
             if mode == 'tail' and n == 1:
                 st.pc.append(d == 0)            # the check's first attempt succeeds (attempt loop: C06)
             return
+        if mode == 'tail' and (short in ('now_in_walltime',) or base == 'record_update_first_seen_time'):
+            # wall clock well inside the representable range and not running backwards during one check
+            from models import time_parts
+            s_, n_ = time_parts(ex, st, val)
+            st.pc.append(z3.And(s_ > -(1 << 40), s_ < (1 << 40)))
+            prev = [e for e in st.trace[:-1] if e.kind == 'env' and (e.name.endswith('now_in_walltime') or e.name == 'record_update_first_seen_time')]
+            if prev and short == 'now_in_walltime':
+                pv = Tree({}, prev[-1].out, 'std::time::SystemTime')
+                ps, pn = time_parts(ex, st, pv)
+                st.pc.append(s_ * 1000000000 + n_ >= ps * 1000000000 + pn)
+                if len(prev) >= 2:
+                    pv0 = Tree({}, prev[0].out, 'std::time::SystemTime')
+                    ps0, pn0 = time_parts(ex, st, pv0)
+                    st.pc.append(s_ * 1000000000 + n_ >= ps0 * 1000000000 + pn0)
+            return
         if base == 'parse_json_response' and mode == 'loop':
             st.pc.append(ex.discr_of(st, val, ty).t == 1)     # cut the tail short: unparseable body
             return
@@ -134,7 +149,8 @@ def explore_puc(chk, mode, napps=1, nresp=1, nres=1, cfg=None):
     c = dict(unroll=5, env_assume=mk_assume(mode), shape=shape_fn(nresp, nres), max_paths=60000)
     if cfg:
         c.update(cfg)
-    ex = make_sm_executor(chk, c, cuts=('persist', 'appset', 'do_omaha', 'check_interval'))
+    cuts = ('persist', 'appset', 'do_omaha', 'check_interval') + (('first_seen',) if mode == 'tail' else ())
+    ex = make_sm_executor(chk, c, cuts=cuts)
     fn = find_method(ex, 'StateMachine::perform_update_check')
     params = Tree({}, 'params', 'RequestParams')
     apps = mk_vec([Tree({}, 'app%d' % i, 'common::App') for i in range(napps)], 'Vec<common::App>')
